@@ -553,6 +553,30 @@ def run_c11(tier, seed):
             j = sum(1 for e in ends if e <= k)
             cases.append(dict(reqs=reqs, k=k, j=j, mode=mode, line=L.mkcase(([(0, "f" + L.hx(data[:k]))] if k else []) + [(0, mode)], default="mb(76)"),
                               desc="pipeline %s cut at byte %d of %d (%s)" % (" ; ".join(req_desc(n, a) for n, a in reqs)[:200], k, len(data), "half-close" if mode == "e" else "full close")))
+    # a request with more elements than the parser pre-allocates for (proto.maxArrayPrealloc = 1024), behind a small complete one:
+    # the stream ends at / around every element boundary near the cap and its doublings, and at every byte of the elements around the cap
+    for n_el, pi2 in ((1030, 0), (2052, 1)) if tier == "quick" else ((1025, 0), (1030, 1), (1500, 0), (2052, 1), (4100, 0)):
+        reqs = [("RPUSH", [b"c", b"x"]), ("RPUSH", [b"big"] + [b"e%d" % (i % 10) for i in range(n_el - 2)])]
+        parts = [G.request_bytes(nm, a) for nm, a in reqs]
+        data = b"".join(parts)
+        ends = [len(parts[0]), len(data)]
+        # byte offsets of element boundaries of the big request
+        bounds, off = [], len(parts[0]) + len(b"*%d\r\n" % n_el)
+        for el in [b"RPUSH", b"big"] + [b"e%d" % (i % 10) for i in range(n_el - 2)]:
+            off += len(b"$%d\r\n" % len(el)) + len(el) + 2
+            bounds.append(off)
+        ks = set()
+        for idx in (1022, 1023, 1024, 1025, 1026, 2047, 2048, 2049, 4095, 4096, 4097, n_el - 1, n_el):
+            if 0 < idx <= n_el:
+                b = bounds[idx - 1]
+                ks.update(range(max(0, b - 9), min(len(data), b + 9) + 1))
+        ks.update(bounds[::37])
+        for k in sorted(ks):
+            mode = "e" if (k + pi2) % 2 == 0 else "x"
+            j = sum(1 for e in ends if e <= k)
+            cases.append(dict(reqs=reqs, k=k, j=j, mode=mode, line=L.mkcase(([(0, "f" + L.hx(data[:k]))] if k else []) + [(0, mode)], default="mb(76)"),
+                              desc="RPUSH c x ; RPUSH big <%d elements> cut at byte %d of %d (%s)" % (n_el - 2, k, len(data), "half-close" if mode == "e" else "full close")))
+        cases.append(dict(reqs=reqs, k=len(data), j=2, mode="e", line=L.mkcase([(0, "f" + L.hx(data)), (0, "e")], default="mb(76)"), desc="RPUSH c x ; RPUSH big <%d elements> complete" % (n_el - 2)))
     good = run_cases(chk, cases)
     validated, distinct = 0, set()
     # expected calls of complete requests: taken from the run of the uncut pipeline (k = len) of the same pipeline
@@ -597,6 +621,10 @@ def run_c11(tier, seed):
     chk.finish()
 
 # ------------------------------------------------------------------------------------------ C20 (and the loop part of C19)
+# what a client may leave behind a complete request before it closes: malformed frames, stray line breaks, lone type bytes
+JUNK_TAILS = [b"!bogus\r\n", b"$abc\r\n", b"*1\r\n$3\r\nabXY\r\n", b"\x00\x01", b"\r", b"\n", b"\r\n", b"\r\n\r\n", b"\n\n", b" ", b"*", b"$", b"+",
+              b"*1\r\n", b"\r\n*1\r\n$4\r\nPING\r\n", b"\n*", b"$-", b"*-1\r\n", b"$0\r\n\r\n\r\n"]
+
 def outcome_cases(rng, n, tier):
     """pipelines mixing every request outcome, ended in every way"""
     cases = []
@@ -625,7 +653,7 @@ def outcome_cases(rng, n, tier):
             k = rng.randrange(1, len(data)) if len(data) > 1 else 0
             steps = [(0, "f" + L.hx(data[:k])), (0, "e")]
         elif endk == "garbage":
-            steps = [(0, "f" + L.hx(data + rng.choice([b"!bogus\r\n", b"$abc\r\n", b"*1\r\n$3\r\nabXY\r\n", b"\x00\x01"]))), (0, "e")]
+            steps = [(0, "f" + L.hx(data + rng.choice(JUNK_TAILS))), (0, "e")]
         elif endk == "reset":
             steps = [(0, "f" + L.hx(data)), (0, "r")]
         else:
